@@ -211,7 +211,7 @@ def cases(tier, rng):
                 yield {"op": "track", "sizes": list(sizes), "recs": recs, "kind": kind}
                 yield {"op": "geo_track", "sizes": list(sizes), "recs": recs, "kind": kind}
     # 3. random larger tracks and expression trees
-    N = 4000 if big else 500
+    N = 3000 if big else 500
     D = 4 if big else 3
     for _ in range(N):
         sizes = [rng.choice([1, 2, 5, 9, 20]) for _ in range(rng.choice([1, 1, 2, 3, 4]))]
